@@ -449,7 +449,8 @@ class Assembler:
             rule_D3(body_lines, log)
         if "D32" not in norules:
             rule_D32(body_lines, log)
-        if "D33" not in norules and header is None and re.search(r"\(\s*mut self\b", sig_lines.text()):
+        if "D33" not in norules and header is None and re.search(r"\(\s*mut self\b", sig_lines.text()) \
+                and not any(w in ("sub", "sigsub") and "mut self" in a.replace("\\", "") for (w, a, c) in blk.sections):
             # D33: a by-value `mut self` receiver (the verifier does not take it) => `self` moved into a mutable local
             # `this` at the top of the body; every `self` in the body then reads `this`
             t = sig_lines.text()
